@@ -1,12 +1,34 @@
-"""C19 - misuse is reported with the documented exception types, silently otherwise (monitor)."""
-from mc import structcheck
+"""C19 - misuse is reported with the documented exception types, silently otherwise (monitor).
+
+Part 1: the misuse exploration (structural operations incl. out-of-alphabet arguments, both intelligent_choice values):
+every exception class / raising site, captured stdout / stderr / warnings, per-call alarm.
+Part 2: values: every simple type x (numeric probes incl. ints beyond float range, non-finite floats, bools, non-string
+objects, a string sample) through the type class, an element host (constructor, value_ assignment) and an attribute
+host: anything but TypeError / ValueError escaping is an internal error."""
+from mc import core, structcheck
 
 PROFILES = [('misuse', 5000, 60000), ('adds', 3000, 40000)]
+STRINGS = ['', ' ', 'a', '0', '1', '-1', '1.5', 'yes', 'NaN', '1e400', '\x00', 'a' * 5000]
 
 
 def run(tier):
-    return structcheck.run_struct('C19', tier, 'C19', PROFILES, min_guard={'calls': 'no call monitored'})
+    def extra(run_, tot, ostats, guards, samples):
+        from mc.checks import C05
+        res = core.pmap(C05.work, [(t, STRINGS, tier) for t in C05.all_types()])
+        for key, xname, accepted, info in res:
+            if xname is None:
+                continue
+            ostats['value_offers'] += info['oc'].get('offers', 0)
+            for (entry, offered, exc) in info['internal']:
+                run_.violation(key, 'internal-error:%s@value-offer' % exc, [key, offered[:60], entry])
+        tot['transitions'] += ostats['value_offers']
+        samples.append({'simple type': 'tenths', 'offered': 'py:int:2**1024', 'entry': 'class'})
+        if ostats['value_offers'] == 0:
+            guards.append('no value offered')
+    return structcheck.run_struct('C19', tier, 'C19', PROFILES, extra=extra, min_guard={'calls': 'no call monitored'})
 
 
 def replay(rec):
-    return structcheck.replay_struct(rec, 'C19')
+    if 'trace' in rec:
+        return structcheck.replay_struct(rec, 'C19')
+    return {'reproduced': None, 'note': 'value offer: key = [simple type, offered value, entry point]; re-run ./check C19 quick'}
